@@ -916,21 +916,28 @@ Section GOOD.
       kind_eqb (tk_kind (current eof ts)) K_EOI = false -> ts <> [].
     Proof. intros ts H ->. simpl in H. rewrite eof_kind in H. discriminate. Qed.
 
-    (* parse_expression / infix_loop / parse_infix_expression *)
+    Lemma kind_eqb_refl : forall k, kind_eqb k k = true.
+    Proof. intros; unfold kind_eqb; apply N.eqb_refl. Qed.
+
+    (* parse_expression / infix_loop / parse_infix_expression / infix_run *)
     Lemma parse_group_good : forall fuel,
-      (forall prec ts, ts_ok ts -> 3 * length ts + 3 <= fuel ->
+      (forall prec ts, ts_ok ts -> 4 * length ts + 4 <= fuel ->
          good (ppost ts) (parse_expression eof builtins fuel prec ts)) /\
-      (forall prec l ts, ts_ok ts -> 3 * length ts + 2 <= fuel ->
+      (forall prec l ts, ts_ok ts -> 4 * length ts + 3 <= fuel ->
          good (ppost ts) (infix_loop eof builtins fuel prec l ts)) /\
-      (forall l ts, ts_ok ts -> ts <> [] -> 3 * length ts + 1 <= fuel ->
-         good (ppost_lt ts) (parse_infix_expression eof builtins fuel l ts)).
+      (forall l ts, ts_ok ts -> 4 * length ts + 2 <= fuel ->
+         good (ppost_lt ts) (parse_infix_expression eof builtins fuel l ts)) /\
+      (forall k prec ro ts, k <> K_EOI -> ts_ok ts -> 4 * length ts + 1 <= fuel ->
+         good (fun a => ts_ok (snd a) /\ length (snd a) <= length ts
+                        /\ (cur_kind_is eof ts k = true -> length (snd a) < length ts))
+              (infix_run eof builtins fuel k prec ro ts)).
     Proof.
-      induction fuel as [|fuel (IHPE & IHIL & IHPI)].
+      induction fuel as [|fuel (IHPE & IHIL & IHPI & IHRUN)].
       { repeat split; intros; lia. }
-      split; [|split].
+      split; [|split; [|split]].
       - (* parse_expression *)
         intros prec ts Hok Hf.
-        cbn [parse_expression infix_loop parse_infix_expression].
+        cbn [parse_expression infix_loop parse_infix_expression infix_run].
         set (ts1 := if cur_kind_is eof ts K_CHOICE_OP then snd (pnext eof ts) else ts).
         assert (H1 : ts_ok ts1 /\ length ts1 <= length ts).
         { subst ts1. destruct (cur_kind_is eof ts K_CHOICE_OP); [|auto].
@@ -1006,23 +1013,30 @@ Section GOOD.
         intros a [A B]. split; auto. lia.
       - (* infix_loop *)
         intros prec l ts Hok Hf.
-        cbn [parse_expression infix_loop parse_infix_expression].
+        cbn [parse_expression infix_loop parse_infix_expression infix_run].
         destruct (kind_eqb (tk_kind (current eof ts)) K_EOI) eqn:Ee; cbn [orb]; [pfin|].
-        pose proof (not_eoi_nonempty _ Ee) as Hn.
         destruct (_ || _); [pfin|].
         gbind IHPI; [lia|]. intros [l' ts1] [O1 R1]. cbn [fst snd] in *.
         eapply good_weaken; [apply IHIL; auto; lia|].
         intros a [A B]. split; auto. lia.
       - (* parse_infix_expression *)
-        intros l ts Hok Hn Hf.
-        cbn [parse_expression infix_loop parse_infix_expression].
-        destruct (pnext eof ts) as [token ts1] eqn:E.
-        destruct (pnext_spec _ _ _ E Hok) as (T1 & O1 & R1 & _ & Etl).
-        pose proof (tl_lt ts Hn) as Hlt. rewrite <- Etl in Hlt.
-        gbind IHPE; [lia|]. intros [rgt ts2] [O2 R2]. cbn [fst snd] in *.
-        destruct (kind_eqb (tk_kind token) K_CHOICE_OP); [destruct rgt; pfin|].
-        destruct (kind_eqb (tk_kind token) K_SEQUENCE_OP); [destruct rgt; pfin|].
-        apply T1.
+        intros l ts Hok Hf.
+        cbn [parse_expression infix_loop parse_infix_expression infix_run].
+        destruct (is_infix (tk_kind (current eof ts))) eqn:Ei; cbv beta iota delta [negb].
+        2:{ exact (current_ok ts Hok). }
+        assert (Hk : tk_kind (current eof ts) <> K_EOI) by (intros E; rewrite E in Ei; discriminate).
+        gbind IHRUN; [lia|]. intros [operands ts1] (O1 & R1 & T1). cbn [fst snd] in *.
+        assert (length ts1 < length ts) by (apply T1; unfold cur_kind_is; apply kind_eqb_refl).
+        destruct (kind_eqb _ K_CHOICE_OP); pfin.
+      - (* infix_run *)
+        intros k prec ro ts Hk Hok Hf.
+        cbn [parse_expression infix_loop parse_infix_expression infix_run].
+        destruct (cur_kind_is eof ts k) eqn:Ec.
+        + pose proof (tl_lt ts (current_kind_nonempty _ _ Ec Hk)) as Hlt.
+          gbind IHPE; [apply tl_ok; auto|lia|]. intros [e ts1] [O1 R1]. cbn [fst snd] in *.
+          eapply good_weaken; [apply IHRUN; auto; lia|].
+          intros a (A & B & _). split; auto. split; [lia|intros; lia].
+        + cbn [good fst snd]. split; auto. split; [lia|intros; discriminate].
     Qed.
 
     Lemma parse_expression_good : forall prec ts, ts_ok ts ->
